@@ -1019,6 +1019,35 @@ def columns_consult_the_width_table(F, res, rule="U11"):
            how="%d methods, no path round the table" % n if not bad else "; ".join(bad))
 
 
+def text_positions_are_counted_in_bytes(F, res, rule="U12", crates=("syntax", "ide", "glas")):
+    """U12 (engine U, lib/units.py): every position and length in a text is a number of BYTES in this code base - text_size's
+    TextSize / TextRange, str slicing, String::drain / truncate / insert, the logos lexer's bump. A text can also be measured in
+    characters (`chars().count()`, the index of `chars().enumerate()`, `position` over characters) or in UTF-16 units
+    (`char::len_utf16`, `encode_utf16`); on ASCII the three agree, which is all the suite contains. For every argument of a byte
+    sink the backward dependence closure (assignments, arithmetic, casts, ranges, calls; stopping at calls that answer in bytes
+    whatever they are given; through workspace helpers whose integer result depends on such a measure; into a closure's captures)
+    must reach no non-byte measure. The one place that converts between the units is LineMap, and it does so with its width table,
+    which is built from the bytes themselves (C14 U1-U11): it needs no exemption. Breaking this shortens or lengthens token ranges
+    (C01: the tree loses text; C02/C10/C15: slicing inside a character panics), ends a search range early (C06/C07: the last uses of
+    a name are not found), moves reported ranges (C20)."""
+    from lib import units as UN
+    un = getattr(F, "_units_engine", None)
+    if un is None:
+        un = F._units_engine = UN.Units(F)
+        un._bad, un._n = un.sinks_fed_by_nonbyte_measures()
+    total = 0
+    for cr in crates:
+        mine = [(f, ln, sink, got) for f, ln, sink, got in un._bad if f.path.startswith((cr + "::", "<" + cr + "::"))]
+        n = un.count_sinks(cr)
+        total += n
+        res.ob(rule, "units/bytes-only/" + cr, "no byte position or byte length of crate %s (text_size constructors, str slicing, String editing, "
+               "Lexer::bump) is computed from a count of characters or of UTF-16 units" % cr, not mine,
+               where=(mine[0][0].loc() if mine else None),
+               how="byte sinks looked at: %d; " % n + ("none is fed by a non-byte measure" if not mine else "; ".join(
+                   "%s line %s: %s is fed by %s" % (FL.short(f.path), ln, sink, ", ".join("%s (%s, line %s)" % (c, u, l) for u, c, l in got)) for f, ln, sink, got in mine[:4])))
+    return total
+
+
 def run(F, res, tier):
     width_table(F, res)
     line_ends_and_bom(F, res)
@@ -1035,3 +1064,8 @@ def run(F, res, tier):
     # after every change of one notification (C13/D2)
     _c13.text_and_line_map_written_together(F, res, rule="U7")
     _c13.edits_use_the_current_line_map(F, res, rule="U7")
+    n = text_positions_are_counted_in_bytes(F, res)
+    res.floor("byte sinks of the workspace (text_size constructors, str slicing, String editing, Lexer::bump)", n, 24)
+    from lib import units as _UN
+    res.floor("byte sinks whose dependence closure ends in a byte measure (positive control of engine U: lex_string's bump <- char::len_utf8)",
+              F._units_engine.positive_controls(), 3)
